@@ -16,6 +16,10 @@ import (
 // (property C03).  C02 is about well-formedness only and switches it off.
 var ValueOracle = true
 
+// frameScales: Desc.Exp values for the float-valued operations (mesh = integers x 2^-Exp): unit shapes
+// authored in units of 2^-40 (about 1e-12) up to 2^20 (about 1e6)
+var frameScales = []int{40, 30, 20, 17, 10, 5, -5, -10, -20}
+
 // StepDesc is the replayable input of one "op" / "frame" case: the projected input meshes and the call.
 type StepDesc struct {
 	Ins []Desc `json:"ins"`
@@ -360,6 +364,17 @@ func FrameCase(sd StepDesc) hx.Case {
 	sd.Op.RegisterNames(names)
 	names.Freeze()
 	term, tAr, tName := sd.Op.FrameCoq(names)
+	// scale: the Go mesh holds the integers x 2^-Exp (exact); the reference is computed from the
+	// integers and mapped by the operation's scaling law: normals and normalise are scale-invariant,
+	// Laplacian and scale-along-normal are linear.  Multiplying by a power of two is exact, so the
+	// comparison got x 2^Exp ~ want (linear) resp. got ~ want (invariant) is a RELATIVE 1e-9 test.
+	exp := sd.Ins[0].Exp
+	sd.Op.Exp = exp
+	unscale := 1.0
+	switch sd.Op.Op {
+	case "laplacian", "laplacian_axis", "scale_along_normal":
+		unscale = math.Ldexp(1, exp)
+	}
 	in := sd.Ins[0].Mesh()
 	res, class, msg := Apply(sd.Op, []modeling.Mesh{in})
 	c := hx.Case{Kind: "frame", Desc: sd, FailKey: failKey(sd)}
@@ -367,7 +382,7 @@ func FrameCase(sd StepDesc) hx.Case {
 	var outs []Desc
 	if class == "ok" {
 		m := res[0]
-		p, err := ProjectWith(m, ProjectOpt{Skip: map[[2]string]bool{{fmt.Sprint(tAr), tName}: true}})
+		p, err := ProjectWith(m, ProjectOpt{Skip: map[[2]string]bool{{fmt.Sprint(tAr), tName}: true}, Exp: exp})
 		if err != nil {
 			c.GoFail = "an attribute other than the target changed to a non-integer value: " + err.Error()
 		}
@@ -399,8 +414,9 @@ func FrameCase(sd StepDesc) hx.Case {
 			outer:
 				for i := range want {
 					for k := range want[i] {
-						if !closeTo(got[i][k], want[i][k]) {
-							c.GoFail = fmt.Sprintf("%s: value %d component %d is %v, the stated map gives %v", sd.Op.Op, i, k, got[i][k], want[i][k])
+						if !closeTo(got[i][k]*unscale, want[i][k]) {
+							c.GoFail = fmt.Sprintf("%s at scale 2^%d: value %d component %d is %v (x 2^%d = %v), the stated map on the integer mesh gives %v",
+								sd.Op.Op, -exp, i, k, got[i][k], exp, got[i][k]*unscale, want[i][k])
 							break outer
 						}
 					}
@@ -547,6 +563,10 @@ func Chain(run *hx.Run, r *hx.Rng, kinds []string, maxDepth int) {
 			}
 		}
 		run.Count("op:" + o.Op)
+		if r.Chance(2, 3) {
+			d.Exp = hx.Pick(r, frameScales)
+		}
+		run.Count(fmt.Sprintf("frame-scale:2^%d", -d.Exp))
 		run.Add(FrameCase(StepDesc{Ins: []Desc{d}, Op: o}))
 		return
 	}
@@ -596,6 +616,16 @@ func Chain(run *hx.Run, r *hx.Rng, kinds []string, maxDepth int) {
 		}
 		if centreFirst && s == 0 && !subsel && suitable("center", cur) {
 			o = RandomOp(r, cur, []string{"center"})
+			if r.Bool() {
+				// the centre operation is linear: the same integer case at a power-of-two scale, one step only
+				cur.Exp = hx.Pick(r, frameScales)
+				run.Count(fmt.Sprintf("centre-scale:2^%d", -cur.Exp))
+				run.Count("op:center")
+				c, _, class := OpCase(StepDesc{Ins: []Desc{cur}, Op: o})
+				run.Count("class:" + class)
+				run.Add(c)
+				return
+			}
 		}
 		if s == 0 && !subsel && !weldFirst && cur.Topo == int(modeling.TriangleTopology) && len(cur.Mats) >= 2 && r.Chance(1, 3) {
 			o = OpDesc{Op: "split"} // a mesh with several material ranges is split straight away one time in three
@@ -624,6 +654,10 @@ func Chain(run *hx.Run, r *hx.Rng, kinds []string, maxDepth int) {
 		run.Count(fmt.Sprintf("depth:%d", s+1))
 		run.Count("topology:" + topoCoq[modeling.Topology(cur.Topo)])
 		if IsFrameOp(o.Op) {
+			if r.Chance(2, 3) {
+				sd.Ins[0].Exp = hx.Pick(r, frameScales)
+			}
+			run.Count(fmt.Sprintf("frame-scale:2^%d", -sd.Ins[0].Exp))
 			c := FrameCase(sd)
 			if c.FailKey != "" {
 				run.Count("candidate:" + c.FailKey)
